@@ -1,4 +1,4 @@
-//! C10: every k-mer operation on all 19 shipped k-mer types; k-mers travel as raw storage (hex).
+//! C10: every k-mer operation on all 19 shipped k-mer types and three further VarIntKmer instances; k-mers travel as raw storage (hex).
 use crate::util::*;
 use debruijn::kmer::*;
 use debruijn::{Dir, Kmer, Mer};
@@ -26,10 +26,12 @@ impl<T: PrimInt + FromPrimitive + Hash + IntHelp + ToPrimitive, KS: KmerSize> Ra
     }
 }
 
-pub const TYPES: [(&str, usize); 19] = [
+pub const TYPES: [(&str, usize); 22] = [
     ("Kmer2", 2), ("Kmer3", 3), ("Kmer4", 4), ("Kmer5", 5), ("Kmer6", 6), ("Kmer8", 8), ("Kmer10", 10), ("Kmer12", 12),
     ("Kmer14", 14), ("Kmer15", 15), ("Kmer16", 16), ("Kmer20", 20), ("Kmer24", 24), ("Kmer30", 30), ("K31", 31),
     ("Kmer32", 32), ("Kmer40", 40), ("Kmer48", 48), ("Kmer64", 64),
+    // VarIntKmer instances that are no alias: the only one that fills its storage, and two with much spare room
+    ("VK4", 4), ("V16K4", 4), ("V128K31", 31),
 ];
 
 #[macro_export]
@@ -51,6 +53,9 @@ macro_rules! with_named_kmer {
             "Kmer24" => $f::<debruijn::kmer::Kmer24>($($args),*),
             "Kmer30" => $f::<debruijn::kmer::Kmer30>($($args),*),
             "K31" => $f::<debruijn::kmer::VarIntKmer<u64, debruijn::kmer::K31>>($($args),*),
+            "VK4" => $f::<debruijn::kmer::VarIntKmer<u8, debruijn::kmer::K4>>($($args),*),
+            "V16K4" => $f::<debruijn::kmer::VarIntKmer<u16, debruijn::kmer::K4>>($($args),*),
+            "V128K31" => $f::<debruijn::kmer::VarIntKmer<u128, debruijn::kmer::K31>>($($args),*),
             "Kmer32" => $f::<debruijn::kmer::Kmer32>($($args),*),
             "Kmer40" => $f::<debruijn::kmer::Kmer40>($($args),*),
             "Kmer48" => $f::<debruijn::kmer::Kmer48>($($args),*),
